@@ -29,9 +29,10 @@ Lemma own_comparison (Arr Opnd Res : Type) (np_binop : vbinop -> Arr -> Opnd -> 
   is_ordering op = true -> view_binop Arr Opnd Res np_binop CSubField op mat x own = Some (own op).
 Proof. intros H. unfold view_binop. rewrite (route_subfield_ordering _ H). reflexivity. Qed.
 
-Lemma reduce_routes c multi r :
-  reduce_route c multi r = match c, multi with CScaled, false => RedApplyGrid r | _, _ => RedMaterialised r end.
-Proof. destruct c, multi, r; reflexivity. Qed.
+Lemma reduce_routes c multi args r :
+  reduce_route c multi args r =
+  match c with CScaled => if multi || args then RedMaterialised r else RedApplyGrid r | _ => RedMaterialised r end.
+Proof. destruct c, multi, args, r; reflexivity. Qed.
 
 (* the shapes the translator recognised (a definition goes MISSING from Gen/GenViews.v when the source changes shape) *)
 Lemma view_shapes :
@@ -276,13 +277,20 @@ Section ScaledProofs.
       apply IH; [lia|exact Hps|exact Hjs].
   Qed.
 
+  Lemma materialise_finish m (r : sview) : materialise (gi_finish S O F ap m r) = materialise r.
+  Proof. unfold gi_finish. cbn [sav_getitem_values]. destruct m; [|reflexivity]. destruct r; reflexivity. Qed.
+
+  Lemma om_finish m (x : option sview) :
+    option_map materialise (option_map (gi_finish S O F ap m) x) = option_map materialise x.
+  Proof. destruct x as [r|]; [|reflexivity]. cbn [option_map]. now rewrite materialise_finish. Qed.
+
   Lemma scaled_index ix (v : sview) : wf S O F v ->
     option_map materialise (view_index ix v) = np_index ix (materialise v).
   Proof.
-    intros Hwf. destruct v as [f|fs|xs s o|xs ss os|rows ss os]; cbn [wf] in Hwf; try contradiction.
+    intros Hwf. destruct v as [f|fs|xs s o|xs ss os|rows ss os|k0 m0]; cbn [wf] in Hwf; try contradiction.
     - (* one element per point *)
       destruct ix as [i|ps|ps|[i|ps]|r c|ps js];
-        cbv [Views.view_index branch_of sav_getitem find gi_cond is_multi];
+        cbv [Views.view_index branch_of sav_getitem find gi_cond is_multi]; rewrite ?om_finish;
         cbn [gi_int_apply gi_keep Views.materialise Views.np_index].
       + rewrite nth_error_map'. destruct (nth_error xs i); reflexivity.
       + rewrite map_length, pick_map. destruct (inb (length xs) ps); reflexivity.
@@ -294,7 +302,7 @@ Section ScaledProofs.
     - (* points x elements *)
       destruct Hwf as [Ho Hrows].
       destruct ix as [i|ps|ps|[i|ps]|[i|ps] [j|js]|ps js];
-        cbv [Views.view_index branch_of sav_getitem find gi_cond is_multi];
+        cbv [Views.view_index branch_of sav_getitem find gi_cond is_multi]; rewrite ?om_finish;
         cbn [gi_int_apply gi_keep gi_pair Views.materialise Views.np_index].
       + rewrite nth_error_map'. destruct (nth_error rows i); reflexivity.
       + rewrite map_length, pick_map. destruct (inb (length rows) ps); reflexivity.
@@ -353,13 +361,113 @@ Section ScaledProofs.
     ap s o (fold_left (zred r) t x) = fold_left (fred F fle r) (map (ap s o) t) (ap s o x).
   Proof. induction t as [|y t IH]; intros x; [reflexivity|]. cbn [fold_left map]. now rewrite IH, red_step. Qed.
 
-  Lemma scaled_minmax r (v : sview) : wf S O F v ->
-    view_reduce S O F ap fle r v = np_reduce F fle r (materialise v).
+  Lemma scaled_minmax r init (v : sview) : wf S O F v ->
+    view_reduce S O F ap fle r init v = np_reduce F fle r init (materialise v).
   Proof.
-    intros Hwf. destruct v as [f|fs|xs s o|xs ss os|rows ss os]; cbn [wf] in Hwf; try contradiction.
-    - unfold view_reduce, reduce_plan. rewrite reduce_routes. cbn [is_multi Views.materialise np_reduce].
+    intros Hwf. destruct v as [f|fs|xs s o|xs ss os|rows ss os|k0 m0]; cbn [wf] in Hwf; try contradiction.
+    - unfold view_reduce, reduce_plan. cbn [is_value]. rewrite reduce_routes. cbn [is_multi orb].
+      destruct init as [i|]; [reflexivity|]. cbn [Views.materialise np_reduce fold_init].
       destruct xs as [|x t]; [reflexivity|]. cbn [fold1 option_map map]. now rewrite red_fold.
-    - unfold view_reduce, reduce_plan. rewrite reduce_routes. reflexivity.
+    - unfold view_reduce, reduce_plan. cbn [is_value]. rewrite reduce_routes. reflexivity.
+  Qed.
+
+  (* ------------------------------------------------------------------------------------------ *)
+  (* first-level results are values or again views of the kind a record hands out                *)
+  (* ------------------------------------------------------------------------------------------ *)
+  Definition okv (x : sview) : Prop := is_value S O F x = true \/ wf S O F x.
+
+  Lemma pick_rows_wf ps js rows (ss : list S) :
+    Forall (fun r : list Z => length r = length ss) rows -> inb (length ss) js = true ->
+    Forall (fun r : list Z => length r = length (pick js ss)) (map (pick js) (pick ps rows)).
+  Proof.
+    intros Hrows Hjs. apply Forall_forall. intros r' Hr'. apply in_map_iff in Hr' as (r & <- & Hr).
+    pose proof (pick_Forall _ ps rows Hrows) as HF. rewrite Forall_forall in HF. specialize (HF r Hr).
+    rewrite !pick_length; [reflexivity|exact Hjs|now rewrite HF].
+  Qed.
+
+  Lemma index_closed ix (v r : sview) : wf S O F v -> view_index ix v = Some r -> okv r.
+  Proof.
+    intros Hwf. destruct v as [f|fs|xs s o|xs ss os|rows ss os|k0 m0]; cbn [wf] in Hwf; try contradiction.
+    - destruct ix as [i|ps|ps|[i|ps]|a c|ps js];
+        cbv [Views.view_index branch_of sav_getitem find gi_cond is_multi gi_finish sav_getitem_values];
+        cbn [gi_int_apply gi_keep option_map].
+      + destruct (nth_error xs i); intros H; inversion H. left. reflexivity.
+      + destruct (inb (length xs) ps); intros H; inversion H. right. exact I.
+      + destruct (inb (length xs) ps); cbn [option_map]; intros H; inversion H. right. exact I.
+      + destruct (nth_error xs i); cbn [option_map]; intros H; inversion H. left. reflexivity.
+      + destruct (inb (length xs) ps); cbn [option_map]; intros H; inversion H. right. exact I.
+      + destruct a, c; cbn [option_map]; discriminate.
+      + cbn [option_map]. discriminate.
+    - destruct Hwf as [Ho Hrows].
+      destruct ix as [i|ps|ps|[i|ps]|[i|ps] [j|js]|ps js];
+        cbv [Views.view_index branch_of sav_getitem find gi_cond is_multi gi_finish sav_getitem_values];
+        cbn [gi_int_apply gi_keep gi_pair option_map].
+      + destruct (nth_error rows i); intros H; inversion H. left. reflexivity.
+      + destruct (inb (length rows) ps); intros H; inversion H. right. split; [exact Ho|now apply pick_Forall].
+      + destruct (inb (length rows) ps); cbn [option_map]; intros H; inversion H. right. split; [exact Ho|now apply pick_Forall].
+      + destruct (nth_error rows i); cbn [option_map]; intros H; inversion H. left. reflexivity.
+      + destruct (inb (length rows) ps); cbn [option_map]; intros H; inversion H. right. split; [exact Ho|now apply pick_Forall].
+      + destruct (nth_error rows i) as [r0|]; [|cbn [option_map]; discriminate].
+        destruct (nth_error r0 j), (nth_error ss j), (nth_error os j); cbn [option_map]; intros H; inversion H. left. reflexivity.
+      + destruct (nth_error rows i) as [r0|]; [|cbn [option_map]; discriminate].
+        destruct (inb (length ss) js); cbn [option_map]; intros H; inversion H. left. reflexivity.
+      + destruct (inb (length rows) ps); [|cbn [option_map]; discriminate].
+        destruct (nth_error ss j), (nth_error os j); cbn [option_map]; intros H; inversion H. right. exact I.
+      + destruct (inb (length rows) ps && inb (length ss) js) eqn:Hb; cbn [option_map]; intros H; inversion H.
+        apply andb_true_iff in Hb as [Hps Hjs]. right. split.
+        * rewrite !pick_length; [reflexivity|exact Hjs|now rewrite Ho].
+        * now apply pick_rows_wf.
+      + destruct (Nat.eqb (length ps) (length js) && inb (length rows) ps && inb (length ss) js);
+          cbn [option_map]; intros H; inversion H. left. reflexivity.
+  Qed.
+
+  Lemma materialise_of_nd (a : nd F) : materialise (of_nd S O F a) = a.
+  Proof. destruct a; reflexivity. Qed.
+
+  Lemma step_correct ix (x : sview) : okv x ->
+    option_map materialise (step_index S O F ap ix x) = np_index ix (materialise x)
+    /\ (forall y, step_index S O F ap ix x = Some y -> okv y).
+  Proof.
+    intros [Hv|Hwf]; unfold step_index.
+    - rewrite Hv. split.
+      + destruct (np_index ix (materialise x)) as [a|]; [|reflexivity]. cbn [option_map]. now rewrite materialise_of_nd.
+      + intros y Hy. destruct (np_index ix (materialise x)) as [a|]; [|discriminate]. cbn [option_map] in Hy.
+        injection Hy as <-. left. destruct a; reflexivity.
+    - assert (is_value S O F x = false) as ->
+        by (destruct x; cbn [wf] in Hwf; try contradiction; reflexivity).
+      split; [now apply scaled_index|]. intros y Hy. now apply (index_closed ix x).
+  Qed.
+
+  Lemma chain_correct ixs : forall (x : sview), okv x ->
+    option_map materialise (chain S O F ap ixs x) = np_chain F ixs (materialise x)
+    /\ (forall y, chain S O F ap ixs x = Some y -> okv y).
+  Proof.
+    induction ixs as [|ix ixs IH]; intros x Hx.
+    - cbn [chain np_chain option_map]. split; [reflexivity|]. intros y Hy. now injection Hy as <-.
+    - cbn [chain np_chain]. destruct (step_correct ix x Hx) as [E C].
+      destruct (step_index S O F ap ix x) as [y|]; cbn [option_map] in E.
+      + rewrite <- E. apply IH. now apply C.
+      + rewrite <- E. split; [reflexivity|discriminate].
+  Qed.
+
+  Lemma chain_values ixs (v : sview) : wf S O F v ->
+    option_map materialise (chain S O F ap ixs v) = np_chain F ixs (materialise v).
+  Proof. intros Hwf. exact (proj1 (chain_correct ixs v (or_intror Hwf))). Qed.
+
+  Lemma reduce_ok r init (x : sview) : okv x ->
+    view_reduce S O F ap fle r init x = np_reduce F fle r init (materialise x).
+  Proof.
+    intros [Hv|Hwf]; [|now apply scaled_minmax]. unfold view_reduce, reduce_plan. now rewrite Hv.
+  Qed.
+
+  (* any chain of index expressions followed by the result's own max/min *)
+  Lemma chain_reduce ixs r init (v : sview) : wf S O F v ->
+    match chain S O F ap ixs v with Some x => view_reduce S O F ap fle r init x | None => None end
+    = match np_chain F ixs (materialise v) with Some a => np_reduce F fle r init a | None => None end.
+  Proof.
+    intros Hwf. destruct (chain_correct ixs v (or_intror Hwf)) as [E C].
+    destruct (chain S O F ap ixs v) as [x|]; cbn [option_map] in E; rewrite <- E; [|reflexivity].
+    apply reduce_ok. now apply C.
   Qed.
 End ScaledProofs.
 
@@ -369,6 +477,6 @@ Proof. unfold ap_Z. intros H. apply Z.leb_le. nia. Qed.
 Lemma leb_antisym a b : Z.leb a b = true -> Z.leb b a = true -> a = b.
 Proof. lia. Qed.
 
-Lemma scaled_minmax_Z r (v : sview positive Z Z) : wf positive Z Z v ->
-  view_reduce positive Z Z ap_Z Z.leb r v = np_reduce Z Z.leb r (materialise positive Z Z ap_Z v).
+Lemma scaled_minmax_Z r init (v : sview positive Z Z) : wf positive Z Z v ->
+  view_reduce positive Z Z ap_Z Z.leb r init v = np_reduce Z Z.leb r init (materialise positive Z Z ap_Z v).
 Proof. apply scaled_minmax; [exact ap_Z_mono|exact leb_antisym]. Qed.
